@@ -859,6 +859,7 @@ def finding_flags(info):
         "F-SG2": q["sb"] > 1 and bool(_RX_15_2.match(plan_class(info))),
         "F-SG3": info.get("engine", "") in ("cr32", "cr32s") and bits_of(info) > 19 and up and q["sb"] < 1,
         "F-SG5": bits_of(info) == 16 and rolloff_of(info) == 1 and "poly1" in kinds,
+        "F-SG6": q["sb"] > 1.1 and bits_of(info) >= 26 and "half" in kinds,
     }
 
 
@@ -869,6 +870,7 @@ FINDING_SYMPTOM = {
     "F-SG2": {"res": None, "img": None},                                 # absolute level <= SG2_LEVEL and at most SG2_RATIO x the bound
     "F-SG3": {"stop": 1.13},                                             # at most 1 dB above 2^-bits
     "F-SG5": {"res": 1.5},                                               # fit residual <= 1.5 x 2^(1-bits)
+    "F-SG6": {"stop": 8.0},                                              # at most 18 dB above 2^-bits (mapped: 3.63 at 33 bits, stopband_begin 1.14)
 }
 SG2_LEVEL = 2.0 ** -13                                                   # absolute residual / image level of F-SG2 (mapped: <= 1.0e-4 at 15 bits)
 SG2_RATIO = 1500.0                                                       # ... and relative to 2^(1-bits) (mapped: 1019 at 33 bits, stopband_begin 1.2)
